@@ -49,6 +49,17 @@ func (g *TGen) value(t *ast.Type, depth int, allowVar bool) *ast.Value {
 		if !t.NonNull && r.Chance(1, 3) {
 			vd.DefaultValue = g.value(t, 1, false)
 		}
+		if t.NonNull && r.Chance(1, 3) {
+			// a nullable variable with a non-null default may be used in a non-null position
+			nt := *t
+			nt.NonNull = false
+			dv := g.value(t, 1, false)
+			if dv.Kind != ast.NullValue {
+				vd.Type = &nt
+				vd.DefaultValue = dv
+				g.feat("nullable_variable_with_default_in_nonnull_position")
+			}
+		}
 		g.vars = append(g.vars, vd)
 		g.feat("variable")
 		return &ast.Value{Kind: ast.Variable, Raw: name}
@@ -545,6 +556,61 @@ var DocFaults = []DocFault{
 		f.Arguments = nil
 		f.SelectionSet = nil
 		return true
+	}},
+	{"implementer-field-on-abstract-type", "FieldsOnCorrectType", func(g *TGen, d *ast.QueryDocument) bool {
+		// a field that only some (not the first) possible types define, selected on the abstract type itself
+		ok := false
+		var walk func(parent *ast.Definition, ss *ast.SelectionSet)
+		walk = func(parent *ast.Definition, ss *ast.SelectionSet) {
+			if parent == nil || ok {
+				return
+			}
+			if parent.Kind == ast.Interface || parent.Kind == ast.Union {
+				pts := g.S.GetPossibleTypes(parent)
+				for i := 1; i < len(pts) && !ok; i++ {
+					for _, pf := range pts[i].Fields {
+						if pts[0].Fields.ForName(pf.Name) == nil && parent.Fields.ForName(pf.Name) == nil && !strings.HasPrefix(pf.Name, "__") {
+							*ss = append(*ss, &ast.Field{Alias: "zz" + pf.Name, Name: pf.Name})
+							ok = true
+							break
+						}
+					}
+				}
+				if ok {
+					return
+				}
+			}
+			for _, sel := range *ss {
+				switch x := sel.(type) {
+				case *ast.Field:
+					if fd := parent.Fields.ForName(x.Name); fd != nil && len(x.SelectionSet) > 0 {
+						walk(g.S.Types[fd.Type.Name()], &x.SelectionSet)
+					}
+				case *ast.InlineFragment:
+					if x.TypeCondition == "" {
+						walk(parent, &x.SelectionSet)
+					} else {
+						walk(g.S.Types[x.TypeCondition], &x.SelectionSet)
+					}
+				}
+			}
+		}
+		for _, o := range d.Operations {
+			var root *ast.Definition
+			switch o.Operation {
+			case ast.Query:
+				root = g.S.Query
+			case ast.Mutation:
+				root = g.S.Mutation
+			case ast.Subscription:
+				continue // a second root field is not allowed
+			}
+			walk(root, &o.SelectionSet)
+		}
+		for _, f := range d.Fragments {
+			walk(g.S.Types[f.TypeCondition], &f.SelectionSet)
+		}
+		return ok
 	}},
 	{"unknown-argument", "KnownArgumentNames", func(g *TGen, d *ast.QueryDocument) bool {
 		f := firstField(d.Operations[0].SelectionSet)
